@@ -1,6 +1,6 @@
 """Exact models of the std / core functions the encoded kernels call (part of the trusted base)."""
 import re
-from mir import SV, Agg, Enum, Opaque, Unsupported
+from mir import SV, Agg, Enum, Opaque, Unsupported, VecVal
 
 
 def m_trunc(it, args, callee):
@@ -160,6 +160,36 @@ def m_option_map(it, args, callee):
     return res
 
 
+def m_option_and_then(it, args, callee):
+    opt, clo = args
+    res = []
+    for pc, is_some, payload in opt_cases(it, opt):
+        if not is_some:
+            res.append((pc, it._mk_enum("Option", "None", []), "return", None))
+            continue
+        if isinstance(clo, Agg) and clo.ty.startswith("{closure@"):
+            f = it.closure_fn(clo)
+            for (pc2, val, kind, msg) in it.call_fn(f, [clo, payload]):
+                res.append((pc + pc2, val, kind, msg))
+        else:
+            raise Unsupported("Option::and_then with callee %r" % clo)
+    return res
+
+
+def m_slice_first(it, args, callee):
+    v = it.deref(args[0], it.cur_env)
+    if isinstance(v, VecVal):
+        return it._mk_enum("Option", "Some", [v.items[0]]) if v.items else it._mk_enum("Option", "None", [])
+    return mk_option(it, SV("isize", "(ite (> %s 0) 1 0)" % v.fields["len"].expr), v.fields["first"])
+
+
+def m_slice_last(it, args, callee):
+    v = it.deref(args[0], it.cur_env)
+    if isinstance(v, VecVal):
+        return it._mk_enum("Option", "Some", [v.items[-1]]) if v.items else it._mk_enum("Option", "None", [])
+    return mk_option(it, SV("isize", "(ite (> %s 0) 1 0)" % v.fields["len"].expr), v.fields["last"])
+
+
 def m_option_unzip(it, args, callee):
     opt = args[0]
     res = []
@@ -205,6 +235,11 @@ def located_inner(it, args, callee):
 MORE_MODELS = {
     r"^std::option::Option::<.*>::map::<": m_option_map,
     r"^std::option::Option::<.*>::unzip$": m_option_unzip,
+    r"^std::option::Option::<.*>::and_then::<": m_option_and_then,
+    r"^core::slice::<impl \[.*\]>::first$": m_slice_first,
+    r"^core::slice::<impl \[.*\]>::last$": m_slice_last,
+    r"^<Vec<.*> as Deref>::deref$": m_identity,
+    r"^Vec::<.*>::as_slice$": m_identity,
     r"^std::option::Option::<.*>::unwrap_or$": m_option_unwrap_or,
     r"^std::option::Option::<.*>::is_some$": m_option_is_some,
     r"^std::option::Option::<.*>::copied$": m_option_copied,
@@ -212,4 +247,95 @@ MORE_MODELS = {
     r"^<quantity::Value as quantity::QuantityValue>::is_text$": m_value_is_text,
     r"^<Located<quantity::Value> as Deref>::deref$": located_inner,
     r"^Located::<quantity::Value>::into_inner$": located_inner,
+}
+
+
+# ----------------------------------------------------------------------------------------------
+# Vec of concrete length (VecVal) behind shared / mutable references
+
+from mir import VecVal, MutRef, ElemRef
+
+
+def _vec(it, ref):
+    v = it.deref(ref, it.cur_env)
+    if not isinstance(v, VecVal):
+        raise Unsupported("expected a Vec of known shape, got %r" % (v,))
+    return v
+
+
+def _const_index(sv):
+    if isinstance(sv, SV) and re.match(r"^\d+$", sv.expr):
+        return int(sv.expr)
+    raise Unsupported("symbolic Vec index %r" % (sv,))
+
+
+def m_vec_is_empty(it, args, callee):
+    return SV("bool", "true" if not _vec(it, args[0]).items else "false")
+
+
+def m_vec_len(it, args, callee):
+    return SV("usize", str(len(_vec(it, args[0]).items)))
+
+
+def m_vec_push(it, args, callee):
+    v = _vec(it, args[0])
+    it.write_ref(args[0], VecVal(v.items + [args[1]]), it.cur_env)
+    return Opaque("unit")
+
+
+def m_vec_insert(it, args, callee):
+    v = _vec(it, args[0])
+    i = _const_index(args[1])
+    if i > len(v.items):
+        return [([], None, "panic", "Vec::insert index out of bounds")]
+    it.write_ref(args[0], VecVal(v.items[:i] + [args[2]] + v.items[i:]), it.cur_env)
+    return Opaque("unit")
+
+
+def m_vec_index(it, args, callee):
+    v = _vec(it, args[0])
+    i = _const_index(args[1])
+    if i >= len(v.items):
+        return [([], None, "panic", "index out of bounds: the len is %d but the index is %d" % (len(v.items), i))]
+    return v.items[i]
+
+
+def m_vec_index_mut(it, args, callee):
+    v = _vec(it, args[0])
+    i = _const_index(args[1])
+    if i >= len(v.items):
+        return [([], None, "panic", "index out of bounds: the len is %d but the index is %d" % (len(v.items), i))]
+    return ElemRef(args[0], i)
+
+
+def m_result_expect(it, args, callee):
+    res = args[0]
+    out = []
+    d = res.discr.expr
+    cases = [(0, "Ok"), (1, "Err")]
+    for idx, name in cases:
+        if name not in res.variants:
+            continue
+        if re.match(r"^\d+$", d):
+            if int(d) != idx:
+                continue
+            pc = []
+        else:
+            pc = ["(= %s %d)" % (d, idx)]
+        if name == "Ok":
+            out.append((pc, res.variants["Ok"].fields["0"], "return", None))
+        else:
+            out.append((pc, None, "panic", "expect failed: %s" % (args[1].expr if isinstance(args[1], SV) else "")))
+    return out
+
+
+VEC_MODELS = {
+    r"^Vec::<.*>::is_empty$": m_vec_is_empty,
+    r"^Vec::<.*>::len$": m_vec_len,
+    r"^Vec::<.*>::push$": m_vec_push,
+    r"^Vec::<.*>::insert$": m_vec_insert,
+    r"^<Vec<.*> as std::ops::Index<usize>>::index$": m_vec_index,
+    r"^<Vec<.*> as IndexMut<usize>>::index_mut$": m_vec_index_mut,
+    r"^Result::<.*>::expect$": m_result_expect,
+    r"^<quantity::Value as ToOwned>::to_owned$": m_identity,
 }
